@@ -18,17 +18,24 @@ and every answer ``(prefix, proposals)`` is compared with
                gives None).
 
 Workloads: real files (stdlib + repo; sites sampled stratified by the character class that
-precedes the identifier), G-prog programs and G-class projects (natural sites plus ~90 spliced
-one-line variants that put every preceding-character class before the identifier), and a few
-fixed minimal inputs.  Exceptions escaping either analysis are C08's business: counted, skipped.
+precedes the identifier), G-prog programs and G-class projects (natural sites plus ~135 spliced
+variants that put every preceding-character class before the identifier), and a few fixed
+minimal inputs.  Clauses (1) and (2) are also checked at every other identifier token (binding
+targets, augmented-assignment targets, parameters, def/class names, keyword names, global/
+nonlocal names, as-names; inside and outside loops).  30% of all positions run on a line-ending
+variant of the same text (CRLF, CR only, LF + one stray CR, CRLF + one lone CR).
+Exceptions escaping either analysis are C08's business: counted, skipped.
 """
 import ast
+import io
 import json
+import keyword
 import os
 import random
 import re
 import shutil
 import tempfile
+import tokenize
 
 from vf import core, corpus
 
@@ -171,6 +178,113 @@ def enumerate_sites(text, lines, part=None):
     return sites
 
 
+# ---------------------------------------------------------------------------------------
+# every other NAME token (binding targets, parameters, def/class names, keyword names, global/nonlocal
+# names, except/import/with 'as' names, ...): prefix + clean proposals hold there too
+
+TARGET_FIELDS = {
+    ast.Assign: ('targets', 'assign-target'), ast.AugAssign: ('target', 'aug-target'),
+    ast.AnnAssign: ('target', 'annassign-target'), ast.For: ('target', 'for-target'),
+    ast.AsyncFor: ('target', 'for-target'), ast.withitem: ('optional_vars', 'with-target'),
+    ast.comprehension: ('target', 'comp-target'), ast.NamedExpr: ('target', 'walrus-target'),
+    ast.Delete: ('targets', 'del-target'),
+}
+
+
+def role_map(tree, lines):
+    """(line, char col) -> role of the identifier starting there, from the AST"""
+    roles = {}
+
+    def put(node, role):
+        roles[(node.lineno, b2c(lines[node.lineno - 1], node.col_offset))] = role
+
+    stack = [(tree, None)]
+    while stack:
+        node, role = stack.pop()
+        t = type(node)
+        if t is ast.Name:
+            put(node, 'name-load' if type(node.ctx) is ast.Load else (role or 'store-other'))
+            continue
+        if t is ast.arg:
+            put(node, 'param')
+        elif t is ast.keyword and node.arg and hasattr(node, 'lineno'):
+            put(node, 'kwarg-name')
+        spec = TARGET_FIELDS.get(t)
+        for field, value in ast.iter_fields(node):
+            if spec and field == spec[0]:
+                r = spec[1]
+            elif t in (ast.Tuple, ast.List, ast.Starred):
+                r = role
+            else:
+                r = None
+            if isinstance(value, list):
+                for v in value:
+                    if isinstance(v, ast.AST):
+                        stack.append((v, r))
+            elif isinstance(value, ast.AST):
+                stack.append((value, r))
+    return roles
+
+
+def loop_ranges(tree):
+    out = []
+    for node in ast.walk(tree):
+        if isinstance(node, (ast.For, ast.AsyncFor, ast.While)) and node.body:
+            out.append((node.body[0].lineno, max(getattr(n, 'end_lineno', n.lineno) for n in node.body)))
+    return out
+
+
+def in_loop(ranges, L):
+    return any(a <= L <= b for a, b in ranges)
+
+
+def enumerate_token_sites(text, lines, covered):
+    """identifier tokens not already covered by enumerate_sites -> sites of kind 'token'"""
+    tree = ast.parse(text)
+    roles = role_map(tree, lines)
+    ranges = loop_ranges(tree)
+    sites = []
+    prev = None
+    first = None
+    for tok in tokenize.generate_tokens(io.StringIO(text).readline):
+        tt = tok.type
+        if tt in (tokenize.NL, tokenize.COMMENT, tokenize.INDENT, tokenize.DEDENT):
+            continue
+        if tt == tokenize.NEWLINE:
+            first = None
+            prev = None
+            continue
+        if tt == tokenize.NAME:
+            if first is None:
+                first = tok.string
+            s = tok.string
+            L, c0 = tok.start
+            if not keyword.iskeyword(s) and (L, c0) not in covered and tok.end[0] == L \
+                    and L <= len(lines) and lines[L - 1][c0:tok.end[1]] == s:
+                role = roles.get((L, c0))
+                if role is None:
+                    if prev == 'def':
+                        role = 'def-name'
+                    elif prev == 'class':
+                        role = 'class-name'
+                    elif prev == 'as':
+                        role = 'as-name:' + (first if first in ('import', 'from', 'with', 'except', 'case') else 'other')
+                    elif first in ('global', 'nonlocal'):
+                        role = first + '-name'
+                    elif prev == '.':
+                        role = 'attr-other'
+                    else:
+                        role = 'other'
+                if role != 'name-load':
+                    sites.append({'kind': 'token', 'sub': role, 'ctx': 'code', 'line': L, 'start': c0, 'end': tok.end[1],
+                                  'ident': s, 'in_loop': in_loop(ranges, L),
+                                  'pre': char_class(lines[L - 1][c0 - 1] if c0 > 0 else None)})
+        elif first is None and tt not in (tokenize.ENDMARKER,):
+            first = tok.string
+        prev = tok.string
+    return sites
+
+
 def positions_of(site, rng, interiors=1):
     """[(col, where)]: end, interior offsets, and start for attribute / dotted import parts"""
     s, e = site['start'], site['end']
@@ -283,6 +397,52 @@ def _templates():
     add('attr-store-with', ast_, 'with open(0) as §.‹zq›: pass')
     add('attr-store-on-attr', ast_, '§.zq.‹zr› = 0')
     add('attr-store-real', ast_, '§.‹zq› = 0\n_t = §.zq')
+    # other identifier tokens (prefix + clean proposals only); several inside loop bodies, where a binding made by
+    # the statement under the cursor reaches the cursor again over the loop back-edge
+    def tok(role, tpl, tid=None):
+        add('token-' + (tid or role), 'token:' + role, tpl)
+    tok('aug-target', '‹§› += 0')
+    tok('aug-target', 'for _i in ():\n    ‹§› += 0', 'aug-target-for')
+    tok('aug-target', 'while 0:\n    ‹§› -= 1\n    print(§)', 'aug-target-while')
+    tok('aug-target', '_t = 0\nfor _i in ():\n    ‹_t› += _i', 'aug-target-for-fresh')
+    tok('aug-target', 'for _i in ():\n    if _i:\n        ‹§› *= 2', 'aug-target-for-if')
+    tok('assign-target', '‹§› = 0')
+    tok('assign-target', 'for _i in ():\n    ‹§› = 0\n    print(§)', 'assign-target-for')
+    tok('assign-target', 'while 0:\n    ‹_t› = 0', 'assign-target-while')
+    tok('assign-target', '‹§›, _t = 0, 0', 'tuple-target')
+    tok('assign-target', '*‹§›, _t = 0, 0', 'star-target')
+    tok('annassign-target', '‹§›: int = 0')
+    tok('annassign-target', 'for _i in ():\n    ‹§›: int = 0', 'annassign-target-for')
+    tok('for-target', 'for ‹§› in (): pass')
+    tok('for-target', 'for _i, ‹§› in (): pass', 'for-target-tuple')
+    tok('for-target', 'for _i in ():\n    for ‹§› in (): pass', 'for-target-nested')
+    tok('with-target', 'with open(0) as ‹§›: pass')
+    tok('with-target', 'for _i in ():\n    with open(0) as ‹§›: pass', 'with-target-for')
+    tok('walrus-target', '(‹§› := 0)')
+    tok('walrus-target', 'while (‹§› := 0): pass', 'walrus-target-while-test')
+    tok('comp-target', '_t = [0 for ‹§› in ()]')
+    tok('del-target', 'del ‹§›')
+    tok('del-target', 'for _i in ():\n    del ‹§›', 'del-target-for')
+    tok('param', 'def _t(‹§›): pass')
+    tok('param', 'def _t(a, *‹§›): pass', 'param-star')
+    tok('param', 'def _t(**‹§›): pass', 'param-dstar')
+    tok('param', 'def _t(a, /, *, ‹§›=0): pass', 'param-kwonly')
+    tok('param', '_t = lambda ‹§›: 0', 'param-lambda')
+    tok('def-name', 'def ‹§›(): pass')
+    tok('def-name', 'for _i in ():\n    def ‹§›(): pass', 'def-name-for')
+    tok('class-name', 'class ‹§›: pass')
+    tok('kwarg-name', 'print(‹end›=0)')
+    tok('kwarg-name', 'print(0,‹end›=§)', 'kwarg-name-comma')
+    tok('global-name', 'def _t():\n    global ‹§›')
+    tok('global-name', 'def _t():\n    global _a,‹§›\n    § = 0', 'global-name-comma')
+    tok('nonlocal-name', 'def _t():\n    nonlocal ‹§›')
+    tok('as-name:except', 'try: pass\nexcept Exception as ‹§›: pass')
+    tok('as-name:except', 'for _i in ():\n    try: pass\n    except Exception as ‹§›: pass', 'as-name-except-for')
+    tok('as-name:import', 'import os as ‹§›')
+    tok('as-name:from', 'from os import path as ‹§›')
+    tok('as-name:import', 'for _i in ():\n    import os as ‹§›', 'as-name-import-for')
+    tok('match-capture', 'match 0:\n    case ‹§›: pass')
+    tok('assign-target', '‹ñandú_t› = 0\nfor _i in ():\n    ñandú_t += 1', 'nonascii-assign-target')
     return T
 
 
@@ -340,10 +500,13 @@ def render_variant(lines, anchor, tpl, name):
     out = lines[:L - 1] + new + lines[L - 1:]
     k, s, e, ident = focus
     kind = tpl['kind']
-    site = {'kind': kind if kind in ('name', 'attr-load', 'attr-store') else 'text',
-            'ctx': 'code' if kind in ('name', 'attr-load', 'attr-store') else kind,
+    code = kind in ('name', 'attr-load', 'attr-store') or kind.startswith('token:')
+    site = {'kind': kind.partition(':')[0] if code else 'text',
+            'ctx': 'code' if code else kind,
             'line': L + k, 'start': s, 'end': e, 'ident': ident, 'variant': tpl['id'],
             'pre': char_class(new[k][s - 1] if s > 0 else None)}
+    if kind.startswith('token:'):
+        site['sub'] = kind.partition(':')[2]
     return '\n'.join(out), out, site
 
 
@@ -354,6 +517,9 @@ def site_is_real(text, lines, site):
     except (SyntaxError, ValueError, RecursionError):
         return False
     if site['kind'] == 'text':
+        return True
+    if site['kind'] == 'token':
+        site['in_loop'] = in_loop(loop_ranges(tree), site['line'])
         return True
     return find_node(tree, lines, site) is not None
 
@@ -376,6 +542,52 @@ def find_node(tree, lines, site):
                     and node.attr == site['ident'] and type(node.ctx) is want:
                 return node
     return None
+
+
+# ---------------------------------------------------------------------------------------
+# line-ending variants of one text (same tokenizer lines, same cursor positions)
+
+EOLS = ('crlf', 'cr', 'lf+stray-cr', 'crlf+lone-cr')
+EOL_SHARE = 0.3
+
+
+def eol_text(lines, spec):
+    """spec = [which, k]; k = index of the line boundary that becomes a lone CR in the mixed variants"""
+    which, k = spec
+    if which == 'lf':
+        return '\n'.join(lines)
+    if which == 'crlf':
+        return '\r\n'.join(lines)
+    if which == 'cr':
+        return '\r'.join(lines)
+    base = '\n' if which == 'lf+stray-cr' else '\r\n'
+    out = []
+    for i, l in enumerate(lines):
+        out.append(l)
+        if i < len(lines) - 1:
+            out.append('\r' if i == k else base)
+    return ''.join(out)
+
+
+def pick_eol(rng, L, lines):
+    which = rng.choice(EOLS)
+    # a boundary before the cursor line when there is one
+    ks = list(range(0, L - 1)) if L >= 2 else [0]
+    if which == 'lf+stray-cr':
+        # CR + empty line + LF would read as one CRLF
+        ks = [k for k in ks if k + 1 < len(lines) and lines[k + 1] != ''] or None
+        if ks is None:
+            which, ks = 'crlf+lone-cr', list(range(0, L - 1)) if L >= 2 else [0]
+    k = rng.choice(ks)
+    return [which, min(k, max(0, len(lines) - 2))]
+
+
+_SPECIAL = {ord(c): ' ' for c in SPLITLINES_ONLY}
+
+
+def normalized_lines(lines):
+    return [l.translate(_SPECIAL) if not l.isascii() or any(c in l for c in '\x0b\x0c\x1c\x1d\x1e') else l
+            for l in lines]
 
 
 # ---------------------------------------------------------------------------------------
@@ -421,43 +633,87 @@ class Mon(object):
         return 'ok', sorted(set(value.attr_list(ctx)))
 
     # -- one cursor position ---------------------------------------------------------
-    def check(self, env, text, lines, bad_line, site, col, where):
+    def check(self, env, lines, site, col, where, eol=None):
+        """lines = tokenizer lines of the text; eol = [variant, k] decides how they are joined"""
+        eol = eol or ['lf', 0]
+        text = eol_text(lines, eol)
         p = self.p
+        if eol[0] != 'lf':
+            if tok_lines(text) != lines:
+                p.count('eol_variant_discarded(sanity; checked with LF instead)')
+                eol = ['lf', 0]
+                text = eol_text(lines, eol)
+        if eol[0] != 'lf':
+            p.count('eol_variant_positions')
+            p.hist('eol_variant', eol[0])
+        found = self._check(p, env, text, lines, site, col, where, eol, True)
+        if not found:
+            return
+        # a violation in a text with unusual line structure: is it the line structure?  Same position, same
+        # lines, joined with plain LF and splitlines()-only separators blanked out.
+        norm = normalized_lines(lines)
+        special = norm != lines
+        if eol[0] != 'lf' or special:
+            base = set(m for m, _, _ in self._check(core.Part(), env, '\n'.join(norm), norm, site, col, where,
+                                                     ['lf', 0], False))
+            for i, (m, what, case) in enumerate(found):
+                if m not in base:
+                    if eol[0] == 'lf':
+                        m2 = 'line-split:splitlines-vs-tokenizer-lines'
+                    else:
+                        m2 = 'line-ending:%s' % eol[0]
+                    found[i] = (m2, what + ' [holds with LF line ends]', case)
+        for m, what, case in found:
+            self.violation(m, what, case)
+
+    def _check(self, p, env, text, lines, site, col, where, eol, main):
+        found = []
         L = site['line']
         pos = (L, col)
         line = lines[L - 1]
         left = line[:col]
         kind = site['kind']
-        p.count('positions')
-        p.hist('site_kind', '%s:%s' % (kind if kind != 'text' else site['ctx'], where))
-        p.hist('pre_class', '%s:%s' % (site['ctx'], site['pre']))
-        if site.get('variant'):
-            p.hist('variant', site['variant'])
+        if main:
+            p.count('positions')
+            p.hist('site_kind', '%s:%s' % (kind if kind != 'text' else site['ctx'], where))
+            p.hist('pre_class', '%s:%s' % (site['ctx'], site['pre']))
+            if site.get('variant'):
+                p.hist('variant', site['variant'])
+            if kind == 'token':
+                p.count('token_positions')
+                if site.get('in_loop'):
+                    p.count('token_positions_in_loop')
+                p.hist('token_role', '%s:%s' % (site['sub'], 'loop' if site.get('in_loop') else 'noloop'))
         try:
             res = self.run_assist(env, text, pos)
         except Exception as e:
             p.count('assist_raised(skipped, C08)')
-            p.hist('assist_raised_type', '%s:%s' % (kind, type(e).__name__))
-            return
-        split_defect = bad_line is not None and bad_line <= L
+            p.hist('assist_raised_type', '%s:%s:%s' % (site.get('sub') or kind, eol[0], type(e).__name__))
+            if main and eol[0] != 'lf':
+                try:
+                    self.run_assist(env, '\n'.join(lines), pos)
+                except Exception:
+                    pass
+                else:
+                    p.count('assist_raised_only_in_eol_variant(skipped, C08)')
+                    p.hist('assist_raised_only_in_eol_variant', '%s:%s' % (eol[0], type(e).__name__))
+            return found
         from_line = left.lstrip().startswith('from ') and ' import ' not in left
 
         def case(**kw):
-            c = {'env': env_case(env), 'pos': [L, col], 'site': site, 'where': where, 'line': line}
+            c = {'env': env_case(env), 'pos': [L, col], 'site': site, 'where': where, 'line': line, 'eol': eol}
             if env['kind'] != 'corpus':
                 c['text'] = text
             c.update(kw)
             return c
 
-        def label(mech):
-            if split_defect:
-                return 'line-split:splitlines-vs-tokenizer-lines'
-            return mech
+        def report(mech, what, c):
+            found.append((mech, what, c))
 
         if not (isinstance(res, (tuple, list)) and len(res) == 2 and isinstance(res[0], str)
                 and isinstance(res[1], list)):
-            self.violation(label('result-shape'), 'assist returned %r at %r' % (type(res), pos), case())
-            return
+            report('result-shape', 'assist returned %r at %r' % (type(res), pos), case())
+            return found
         prefix, props = res
 
         # (1) prefix ------------------------------------------------------------------
@@ -467,8 +723,8 @@ class Mon(object):
             p.count('prefix_compared_nonempty')
         if prefix != exp:
             mech = self.prefix_mech(prefix, exp, left, line, col, site, from_line)
-            self.violation(label(mech), 'prefix %r, expected %r for %r' % (prefix, exp, left[-40:] + '|' + line[col:col + 12]),
-                           case(observed_prefix=prefix, expected_prefix=exp))
+            report(mech, 'prefix %r, expected %r for %r' % (prefix, exp, left[-40:] + '|' + line[col:col + 12]),
+                   case(observed_prefix=prefix, expected_prefix=exp))
         else:
             p.count('prefix_ok')
 
@@ -476,15 +732,16 @@ class Mon(object):
         p.count('clean_checked')
         if props:
             p.count('clean_checked_nonempty')
-        self.clean(props, site, from_line, label, case, pos)
+            if kind == 'token':
+                p.count('token_clean_checked_nonempty')
+        self.clean(p, props, site, from_line, report, case, pos)
 
         # (3) transparency ------------------------------------------------------------
-        if kind == 'name' and where == 'end':
-            self.transparency(env, text, lines, site, pos, where, props, from_line, label, case)
-        elif kind in ('attr-load', 'attr-store'):
-            self.transparency(env, text, lines, site, pos, where, props, from_line, label, case)
+        if (kind == 'name' and where == 'end') or kind in ('attr-load', 'attr-store'):
+            self.transparency(p, env, text, lines, site, pos, where, props, from_line, report, case, main)
         else:
             p.count('transparency_not_applicable')
+        return found
 
     def prefix_mech(self, prefix, exp, left, line, col, site, from_line):
         suffix = ':from-line' if from_line else ''
@@ -500,37 +757,36 @@ class Mon(object):
             return 'prefix-includes-text-right-of-cursor:%s%s' % (site.get('sub') or site['kind'], suffix)
         return 'prefix-wrong:%s%s' % (site.get('sub') or site['kind'], suffix)
 
-    def clean(self, props, site, from_line, label, case, pos):
+    def clean(self, p, props, site, from_line, report, case, pos):
         kind = site.get('sub') or site['kind']
         if kind == 'text':
             kind = site['ctx']
+        if site['kind'] == 'token' and site.get('in_loop'):
+            kind += ':in-loop'
         nonstr = [x for x in props if not isinstance(x, str)]
         if nonstr:
-            self.violation(label('proposal-not-str:' + kind), 'proposal %r is not a str at %r' % (nonstr[0], pos),
-                           case(proposals=[repr(x) for x in props[:50]]))
+            report('proposal-not-str:' + kind, 'proposal %r is not a str at %r' % (nonstr[0], pos),
+                   case(proposals=[repr(x) for x in props[:50]]))
             return
         leaked = [x for x in props if MARK in x]
         if leaked:
-            self.violation(label('marker-leak:' + {'attr-store': 'store-attribute'}.get(site['kind'], kind)),
-                           'proposal %r contains the cursor marker at %r' % (leaked[0], pos),
-                           case(leaked=leaked[:5]))
+            report('marker-leak:' + {'attr-store': 'store-attribute'}.get(site['kind'], kind),
+                   'proposal %r contains the cursor marker at %r' % (leaked[0], pos), case(leaked=leaked[:5]))
         if props != sorted(props):
-            self.violation(label('proposals-unsorted:' + kind), 'proposals not sorted at %r' % (pos,),
-                           case(proposals=props[:200]))
+            report('proposals-unsorted:' + kind, 'proposals not sorted at %r' % (pos,), case(proposals=props[:200]))
         if len(set(props)) != len(props):
             dup = sorted(x for x in set(props) if props.count(x) > 1)
-            self.violation(label('proposals-duplicate:' + kind), 'duplicate proposals %r at %r' % (dup[:5], pos),
-                           case(duplicates=dup[:20]))
+            report('proposals-duplicate:' + kind, 'duplicate proposals %r at %r' % (dup[:5], pos),
+                   case(duplicates=dup[:20]))
         bad = [x for x in props if not x.isidentifier() and MARK not in x]
         if bad:
             src = 'module-name' if (from_line or site['kind'] == 'import') else kind
-            self.violation(label('non-identifier-proposal:' + src), 'proposal %r is not an identifier at %r' % (bad[0], pos),
-                           case(non_identifiers=bad[:10]))
+            report('non-identifier-proposal:' + src, 'proposal %r is not an identifier at %r' % (bad[0], pos),
+                   case(non_identifiers=bad[:10]))
         if not (leaked or bad or props != sorted(props) or len(set(props)) != len(props)):
-            self.p.count('clean_ok')
+            p.count('clean_ok')
 
-    def transparency(self, env, text, lines, site, pos, where, props, from_line, label, case):
-        p = self.p
+    def transparency(self, p, env, text, lines, site, pos, where, props, from_line, report, case, main):
         kind = site['kind']
         try:
             st, exp = self.run_oracle(env, text, lines, site, pos)
@@ -549,7 +805,8 @@ class Mon(object):
             p.count('transparency_store_attr_compared')
         if exp:
             p.count('transparency_compared_nonempty')
-            self.nonempty += 1
+            if main:
+                self.nonempty += 1
         got = sorted(set(props))
         if got == exp:
             p.count('transparency_ok')
@@ -580,7 +837,7 @@ class Mon(object):
             mech = 'transparency:%s%s' % (kind, '' if where == 'start' else ':prefix-typed')
             if from_line:
                 mech = 'from-line-heuristic:' + kind
-        self.violation(label(mech), 'proposals differ from the unmarked analysis at %r (%s): extra %r missing %r' % (
+        report(mech, 'proposals differ from the unmarked analysis at %r (%s): extra %r missing %r' % (
             pos, cell, extra[:5], missing[:5]), case(extra=extra[:30], missing=missing[:30], n_expected=len(exp)))
 
 
@@ -591,12 +848,12 @@ def env_case(env):
 # ---------------------------------------------------------------------------------------
 # workloads
 
-def check_sites(mon, env, text, lines, sites, rng, per_site_interiors):
-    bad_line = first_splitlines_only_line(lines)
+def check_sites(mon, env, lines, sites, rng, per_site_interiors, eol_share=EOL_SHARE):
     classes = set()
     for site in sites:
         for col, where in positions_of(site, rng, per_site_interiors):
-            mon.check(env, text, lines, bad_line, site, col, where)
+            eol = pick_eol(rng, site['line'], lines) if rng.random() < eol_share else None
+            mon.check(env, lines, site, col, where, eol)
         classes.add((site['ctx'], site['pre']))
     return classes
 
@@ -608,7 +865,7 @@ def stratified(sites, rng, n):
     """up to n sites, round-robin over (kind, preceding character class) so rare classes are kept"""
     groups = {}
     for s in sites:
-        groups.setdefault((s['kind'], s.get('sub'), s['pre']), []).append(s)
+        groups.setdefault((s['kind'], s.get('sub'), s.get('in_loop'), s['pre']), []).append(s)
     keys = sorted(groups, key=str)
     for k in keys:
         rng.shuffle(groups[k])
@@ -672,11 +929,20 @@ def do_text(mon, env, text, rng, n_sites, interiors, with_variants, prefer=None)
         return set()
     part.count('sites_total', len(sites))
     pick = stratified(sites, rng, n_sites) if n_sites is not None and len(sites) > n_sites else sites
-    classes = check_sites(mon, env, text, lines, pick, rng, interiors)
+    classes = check_sites(mon, env, lines, pick, rng, interiors)
+    try:
+        toks = enumerate_token_sites(text, lines, set((s['line'], s['start']) for s in sites))
+    except (SyntaxError, ValueError, RecursionError, tokenize.TokenError):
+        part.count('text_not_tokenizable(token sites skipped)')
+        toks = []
+    part.count('token_sites_total', len(toks))
+    n_tok = None if n_sites is None else max(4, (2 * n_sites) // 3)
+    tpick = stratified(toks, rng, n_tok) if n_tok is not None and len(toks) > n_tok else toks
+    classes |= check_sites(mon, env, lines, tpick, rng, 1)
     if with_variants:
         for vtext, vlines, site in variants_for(text, lines, rng, part, TEMPLATES, prefer):
             part.count('variants')
-            classes |= check_sites(mon, env, vtext, vlines, [site], rng, 1)
+            classes |= check_sites(mon, env, vlines, [site], rng, 1)
     return classes
 
 
@@ -792,6 +1058,22 @@ HAND = [
     ('x = 1\n\x0c\nfoo = 2\ny = fo|o\n', 'name'),
     ('x = 1\n\x0c\nfoo = 2\ny = foo|\n', 'name'),
     ('x = "\u2028"\nfoo = 2\ny = foo|\n', 'name'),
+    ('import os\n\ndef f(arg):\n    foo = 1\n    bar = arg\n    return ba|r\nx = f\ny = os.path\n', 'name'),
+    ('import os\n\ndef f(arg):\n    foo = 1\n    bar = arg\n    return bar\nx = f\ny = os.pa|th\n', 'attr-load'),
+    ('total = 0\nfor item in (1, 2):\n    total| += item\n', 'token'),
+    ('total = 0\nfor item in (1, 2):\n    to|tal += item\nprint(total)\n', 'token'),
+    ('acc = 0\nwhile acc:\n    acc| -= 1\n', 'token'),
+    ('total = 0\ntotal| += 1\n', 'token'),
+    ('for item in (1, 2):\n    tot|al = item\n', 'token'),
+    ('def f(arg|, other=1):\n    return arg\n', 'token'),
+    ('def fu|nc():\n    pass\n', 'token'),
+    ('class Kla|ss(object):\n    pass\n', 'token'),
+    ('print(1, en|d="")\n', 'token'),
+    ('x = 1\ndef f():\n    global x|\n    x = 2\n', 'token'),
+    ('try:\n    pass\nexcept Exception as ex|c:\n    pass\n', 'token'),
+    ('import os as oo|s\n', 'token'),
+    ('for it|em in ():\n    pass\n', 'token'),
+    ('with open(0) as fi|le:\n    pass\n', 'token'),
 ]
 
 
@@ -828,7 +1110,10 @@ def work_hand(arg):
                 site = {'kind': 'text', 'ctx': 'comment' if '#' in left else 'string', 'line': L, 'start': s,
                         'end': e, 'ident': lines[L - 1][s:e], 'pre': char_class(left[s - 1] if s else None)}
             else:
-                for s in enumerate_sites(text, lines, part):
+                found = enumerate_sites(text, lines, part)
+                if kind == 'token':
+                    found = enumerate_token_sites(text, lines, set((s['line'], s['start']) for s in found))
+                for s in found:
                     if s['line'] == L and s['start'] <= col <= s['end'] and s['kind'] == kind:
                         site = s
             if site is None:
@@ -836,8 +1121,11 @@ def work_hand(arg):
                 continue
             where = 'end' if col == site['end'] else 'start' if col == site['start'] else 'interior'
             part.count('hand_cases')
-            mon.check(env, text, lines, first_splitlines_only_line(lines), site, col, where)
-            part.case('hand:%d' % n, nontrivial=mon.nonempty > before or kind in ('text', 'import'))
+            mon.check(env, lines, site, col, where)
+            # and the same input under every line-ending variant (stray CR right before the cursor line)
+            for which in EOLS:
+                mon.check(env, lines, site, col, where, [which, max(0, L - 2)])
+            part.case('hand:%d' % n, nontrivial=mon.nonempty > before or kind in ('text', 'import', 'token'))
     finally:
         shutil.rmtree(tmp, ignore_errors=True)
     return part.dump()
@@ -888,7 +1176,8 @@ def main(run):
              'line (the classes the unit tests cover); for fixed string/comment/import inputs: always',
         require=('positions', 'prefix_compared_nonempty', 'clean_checked_nonempty', 'transparency_name_compared',
                  'transparency_attr_compared', 'transparency_store_attr_compared', 'transparency_compared_nonempty',
-                 'variants', 'corpus_files', 'gprog_programs', 'gclass_files'),
+                 'variants', 'corpus_files', 'gprog_programs', 'gclass_files', 'eol_variant_positions',
+                 'token_positions', 'token_positions_in_loop'),
         assumptions=[
             'cursor position = (1-based tokenizer line, 0-based character column), as an editor reports it',
             'identifier character = [A-Za-z0-9_] or a non-ASCII c with ("a"+c).isidentifier()',
@@ -897,6 +1186,12 @@ def main(run):
             'both analyses run on fresh Project objects; a mismatch that does not reproduce when both analyses are '
             'repeated (interpreter-global sys.modules warmed by the first run) is counted, not reported',
             'exceptions escaping assist or the unmarked analysis are counted and skipped (property C08)',
+            'a share (%d%%) of all positions is run on a line-ending variant of the same text (CRLF, CR only, LF with one '
+            'stray CR before the cursor line, CRLF with one lone CR); lines and cursor lines are counted the tokenizer way; '
+            'a violation that disappears when the same lines are joined with LF is labelled line-ending:<variant>' % int(EOL_SHARE * 100),
+            'prefix and clean-proposal clauses are also checked at the end of / inside every other identifier token '
+            '(binding targets, augmented-assignment targets, for/with targets, parameters, def/class names, keyword names, '
+            'global/nonlocal names, as-names), inside and outside loop bodies; transparency is not defined there',
             'corpus files are sampled: up to %d sites per file stratified by (site kind, preceding character class)' % n_sites,
         ],
         exhaustive=False)
@@ -936,7 +1231,7 @@ def replay(run, path):
                 env = dict(e, root=tmp, filename=os.path.join(tmp, 'm.py'))
             lines = tok_lines(text)
             part.case(json.dumps([e.get('path'), e.get('gen'), c['pos']]), nontrivial=True)
-            mon.check(env, text, lines, first_splitlines_only_line(lines), c['site'], c['pos'][1], c['where'])
+            mon.check(env, lines, c['site'], c['pos'][1], c['where'], c.get('eol'))
         finally:
             if proj is not None:
                 proj.close()
